@@ -258,15 +258,21 @@ def _crash_runs(ctx, pool, kinds):
     dry_jobs.append(j)
     dres = pool.run([{k2: v2 for k2, v2 in j.items() if not k2.startswith("_")} for j in dry_jobs])
     inj_jobs = []
+    failed_dry = []
     n_lines = {"try": 0, "fin": 0, "pro": 0, "ofin": 0, "hdl": 0, "open": 0}
     seen_direct = set()
     for j, r in zip(dry_jobs, dres):
         if "machinery" in r or "targets" not in r:
             raise MachineryError(f"dry run failed: {j['entry']}/{j['kind']}: {r.get('machinery') or r}")
         last = r["ev"][-1]
-        if (last["a"] == "Outcome" and (last["esc"] != "Done" or last["n"] == 0)) or \
-                (last["a"] == "CliOut" and last["exit"] != 0):
-            raise MachineryError(f"the valid document of kind {j['kind']} is not extracted ({j['entry']}): {last}")
+        if r.get("killed") or (last["a"] == "Outcome" and (last["esc"] != "Done" or last["n"] == 0)) or \
+                (last["a"] == "CliOut" and last["exit"] != 0) or last["a"] not in ("Outcome", "CliOut"):
+            # the valid document does not come out under this entry point on THIS tree: an observation, not a machinery
+            # failure -- its exception flow goes to TLC like every other execution (a family class is not C01's business,
+            # anything else is rejected there); no crash points can be derived from it
+            failed_dry.append((j, r))
+            ctx.log(f"note: valid {j['kind']} document not extracted under entry {j['entry']}: {last}")
+            continue
         j["_plan"] = _trace_shape(r["ev"])
         j["_n"] = r.get("n", 0)
         entry = j["entry"]
@@ -321,10 +327,18 @@ def _crash_runs(ctx, pool, kinds):
             inj_jobs.append(ij)
     ctx.log(f"crash points: {len(dry_jobs)} dry runs, line stages {n_lines}, {len(inj_jobs)} injection runs")
     t0 = time.time()
-    ires = pool.run([{k2: v2 for k2, v2 in j.items() if not k2.startswith("_")} for j in inj_jobs],
-                    progress=lambda a, b: ctx.log(f"  injections {a}/{b}") if a % 5000 == 0 else None)
+    ires = list(pool.run([{k2: v2 for k2, v2 in j.items() if not k2.startswith("_")} for j in inj_jobs],
+                         progress=lambda a, b: ctx.log(f"  injections {a}/{b}") if a % 5000 == 0 else None))
     ctx.log(f"injection runs done in {time.time() - t0:.1f}s")
     ctx.ev.set(line_stages=n_lines)
+    if len(failed_dry) > len(dry_jobs) // 2:
+        raise MachineryError(f"{len(failed_dry)} of {len(dry_jobs)} valid documents are not extracted: binding broken? "
+                             f"{failed_dry[0][1].get('ev', [])[-1:]}")
+    for j, r in failed_dry:                      # validated by TLC together with the injection runs
+        j2 = dict(j)
+        j2.update(_tg=None, _plan=None, _members=j.get("members", 1), _drytrace=True)
+        inj_jobs.append(j2)
+        ires.append(r)
     return inj_jobs, ires
 
 
@@ -342,7 +356,9 @@ def _crash_compare(ctx, cases, inj_jobs, ires):
                 "members": j.get("members", 1), "cli_mode": j.get("cli_mode", "")}
         traces.append({"id": f"inj{len(traces)}", "hdr": {"x": 1}, "ev": evs})
         meta.append({"desc": desc, "res": r, "job": j})
-        if r.get("killed"):
+        if r.get("killed") or j.get("_drytrace"):
+            if j.get("_drytrace"):
+                desc["class"], desc["at"] = "(none: the valid document)", "no injection"
             continue
         if tg is not None and not r.get("injected"):
             n_notfired += 1
@@ -600,6 +616,28 @@ def _fuzz_jobs(ctx, kinds_all):
                               ["burst", rng.randrange(20, ln), 8, rng.randrange(1 << 30)], ["zero", rng.randrange(10, ln), 16]])
             add(rng.choice(["cli", "cli", "readfile"]), "archive", {"seed": tar0, "muts": [["compress", comp], dmg]}, ext=ext,
                 cli_mode="text")
+    # ---- formula-bearing documents: one OMML construct nested deep (the converter is recursive), DOCX and PPTX
+    ok_ = [k_ for k_ in M.OMML_NEST]
+    for k in ("docx", "pptx"):
+        for ci, c_ in enumerate(ok_):
+            depths = (3, 48, 400) if T else ((48,) if c_ != "mix" else (3, 48))
+            for dp in depths:
+                add("direct", k, {"seed": M.SEEDS[k][0], "muts": [["omml", c_, dp, (ci + dp) % 2]]})
+            if T or c_ in ("d", "mix"):
+                add(rng.choice(["readfile", "cli", "member"]), k, {"seed": M.SEEDS[k][0], "muts": [["omml", c_, 48, 0]]})
+    # ---- the CLI for every outcome class: 0 / 1 / n results, and results whose text the output stream cannot take
+    #      (lone surrogate from charset=unicode-escape) as first / later / only result: all or nothing on stdout
+    for which, ext_ in sorted(M.SURR_INPUTS.items()):
+        knd = {"mbox": "mbox", "html": "html"}.get(ext_, "archive")
+        src_ = {"seed": txt, "muts": [["surr", which]]}
+        for mode in (("text", "json", "unit") if T else ("text",)):
+            add("cli", knd, src_, ext=ext_, foreign=True, cli_mode=mode)
+        add("readfile", knd, src_, ext=ext_, foreign=True)
+        if knd != "archive":
+            add("direct", knd, src_, ext=ext_, foreign=True)
+            add("attachment", knd, src_, ext=ext_, foreign=True, members=2)
+    for c_ in ("empty", "nul", "mboxfrom"):              # mailboxes / archives with no result at all
+        add("cli", "mbox", {"seed": txt, "muts": [["const", c_]]}, foreign=True, cli_mode="text")
     # ---- every extractor FAILING with path absent / empty / real (truncated own seed, foreign bytes, container shell)
     for b in kinds_all:
         sid = M.SEEDS[b][0]
@@ -724,6 +762,9 @@ def _fuzz_jobs(ctx, kinds_all):
         j = {"op": "clisub", "entry": "cli", "kind": k, "src": {"seed": sid, "muts": [mut]}, "ext": _ext_for(k, sid),
              "approx_size": n, "cli_mode": rng.choice(["text", "json", "unit", "jsonbin"])}
         subs.append(j)
+    for which in ("mbox_second", "mbox_first", "mbox_clean", "zip_second", "zip_none"):
+        subs.append({"op": "clisub", "entry": "cli", "kind": "mbox" if which.startswith("mbox") else "archive",
+                     "ext": M.SURR_INPUTS[which], "approx_size": 500, "cli_mode": "text", "src": {"seed": txt, "muts": [["surr", which]]}})
     for comp in ("gz", "bz2", "xz"):
         subs.append({"op": "clisub", "entry": "cli", "kind": "archive", "ext": comp, "approx_size": 100, "cli_mode": "text",
                      "src": {"seed": txt, "muts": [["compress", comp]]}})
@@ -917,7 +958,8 @@ def _explain(bad, m, r):
     d = m["desc"]
     a = bad.get("a")
     src = d.get("src")
-    inp = f"input {src}" if src else f"injection {d.get('class')} at {d.get('at')}"
+    inp = (f"input {src}" if src else "the valid seed document, nothing injected" if str(d.get("class", "")).startswith("(none")
+           else f"injection {d.get('class')} at {d.get('at')}")
     head = f"[{d.get('entry')}/{d.get('kind')}] {inp}: "
     if a == "Timeout":
         return head + "the execution did not finish within its CPU / wall budget and was killed (termination clause)"
@@ -933,7 +975,8 @@ def _explain(bad, m, r):
         return head + f"the wrapper converts the exception into class {bad.get('c')}, not the documented class for this layer"
     if a == "Raise":
         return head + (f"an exception arises at stage '{bad.get('st')}' of layer frame {bad.get('d')}, which the "
-                       "specification does not have for this layer (statement outside the wrapper)")
+                       "specification does not have for this layer (a statement outside the wrapper's try body: before it, "
+                       "in its else / finally)")
     if a == "CliOut":
         return head + (f"CLI outcome stdout={bad.get('out')} diagnostic lines={bad.get('diag')} exit={bad.get('exit')} "
                        "differs from the specification (exit 0 + result | exit 1 + nothing on stdout + one diagnostic)")
